@@ -254,4 +254,19 @@ func init() {
 		Old: "\t\t\tif dropped && afterPreStart {\n", New: "\t\t\tif dropped && false {\n",
 		More: [][2]string{{"\t\tafterPreStart := preStart\n", "\t\tafterPreStart := preStart\n\t\t_ = afterPreStart\n"}},
 		Rule: "R03.26", Construct: "a dropped comment asks whether it follows the pre start tag"})
+	mutant(&Mutant{Name: "c13-nesting-written-into-the-callers-params", Property: "C13", File: "html/html.go",
+		Old: "\t\t\t\t\tvar params map[string]string\n", New: "",
+		Rule: "R13.11", Construct: "html/no store into a params map parameter"})
+	mutant(&Mutant{Name: "c07-copy-destination-one-byte-short", Property: "C07", File: "common.go",
+		Old: "\t\t\t\tcopy(num[start+1:], num[start:dot])\n\t\t\t\tstart++\n\t\t\t} else {\n\t\t\t\tcopy(num[dot:], num[dot+1:end])\n\t\t\t\tend--\n", New: "\t\t\t\tcopy(num[start+1:dot], num[start:dot])\n\t\t\t\tstart++\n\t\t\t} else {\n\t\t\t\tcopy(num[dot:], num[dot+1:end])\n\t\t\t\tend--\n",
+		Rule: "R07.15", Construct: "has room for its source"})
+	mutant(&Mutant{Name: "c11-escaper-waits-for-the-semicolon", Property: "C11", File: "html/html.go",
+		Old: "\t\tif c == '&' && i+1 < len(b) && isRefStart(b[i+1]) {", New: "\t\tif c == '&' && i+1 < len(b) && isRefStart(b[i+1]) && bytes.IndexByte(b[i+1:], ';') != -1 {",
+		Rule: "R11.9", Construct: "does not wait for a semicolon"})
+	mutant(&Mutant{Name: "c01-declarators-sorted-with-an-unstable-sort", Property: "C01", File: "js/js.go",
+		Old: "\t\t\tsort.SliceStable(decl.List, func(i, j int) bool {", New: "\t\t\tsort.Slice(decl.List, func(i, j int) bool {",
+		Rule: "R01.56", Construct: "sort of decl.List"})
+	mutant(&Mutant{Name: "c09-regexp-end-tag-matched-by-a-fixed-string", Property: "C09", File: "js/js.go",
+		Old: "m.prev[len(m.prev)-1] == '<' && isScriptEndTag(expr.Data) {", New: "m.prev[len(m.prev)-1] == '<' && bytes.HasPrefix(expr.Data, []byte(\"/script>\")) {",
+		Rule: "R09.20", Construct: "js.jsMinifier.minifyExpr/end tag recognised whatever its case and tail"})
 }
